@@ -15,6 +15,26 @@ int main(void)
     while ((line = hx_getline(stdin))) {
         char *t[8]; int nt = 0; char *p = strtok(line, " ");
         while (p && nt < 8) { t[nt++] = p; p = strtok(NULL, " "); }
+        if (nt == 3 && !strcmp(t[0], "W2XN")) {
+            /* optional arguments given as NULL: mode 0 = legacy entry point with params == NULL,
+             * mode 1 = converter object with xml_len == NULL */
+            size_t n; unsigned char *doc = hx_unhex(t[2], &n);
+            WB_UTINY *xml = NULL; WB_ULONG xml_len = 0; WBXMLError ret;
+            if (atoi(t[1]) == 0) {
+                ret = n ? wbxml_conv_wbxml2xml_withlen(doc, (WB_ULONG)n, &xml, &xml_len, NULL) : WBXML_ERROR_BAD_PARAMETER;
+            } else {
+                WBXMLConvWBXML2XML *conv = NULL;
+                wbxml_conv_wbxml2xml_create(&conv);
+                ret = n ? wbxml_conv_wbxml2xml_run(conv, doc, (WB_ULONG)n, &xml, NULL) : WBXML_ERROR_BAD_PARAMETER;
+                wbxml_conv_wbxml2xml_destroy(conv);
+                if (xml) xml_len = (WB_ULONG)strlen((char *)xml);
+            }
+            printf("R %d ; ", (int)ret);
+            if (ret == WBXML_OK && xml) hx_out(stdout, xml, xml_len);
+            printf("%s\n", (ret != WBXML_OK && xml != NULL) ? " CONTRACT:error-with-output" : "");
+            if (xml) wbxml_free(xml);
+            free(doc); free(line); continue;
+        }
         if (nt != 7 || strcmp(t[0], "W2X")) { puts("BADVERB"); free(line); continue; }
         {
             size_t n; unsigned char *doc = hx_unhex(t[6], &n);
